@@ -741,7 +741,7 @@ fn instantiate(k: usize, hs: &mut Vec<Handle>) {
             // the label of the tasks spawned from here on; put back afterwards (the creator may
             // be a RenderEffect in its first run, whose own task is spawned after that run)
             let saved = EXEC.with(|x| std::mem::replace(&mut x.borrow_mut().label, id));
-            let made = make_effect(decl.at(1).num(), id as usize, parse_expr(decl.at(2)), parse_expr(decl.at(3)), lower, 0);
+            let made = make_effect(decl.at(1).num(), id as usize, parse_expr(decl.at(2)), parse_expr(decl.at(3)), lower, decl.at(5).num());
             EXEC.with(|x| x.borrow_mut().label = saved);
             match made {
                 EffHandle::Render(Some(r)) => NESTED.with(|n| match n.borrow_mut().last_mut() {
@@ -875,6 +875,32 @@ fn exec_poll_nth(k: usize) -> Option<i64> {
     });
     Some(label)
 }
+/// case flag 4: every task that is NOT ready is polled once (a spurious wake-up); nothing may
+/// happen (no event is printed for such a poll: a body that runs shows up outside any poll)
+fn exec_spurious() {
+    if !flag(4) {
+        return;
+    }
+    let n = EXEC.with(|e| e.borrow().tasks.len());
+    for id in 0..n {
+        let got = EXEC.with(|e| {
+            let mut e = e.borrow_mut();
+            let t = &mut e.tasks[id];
+            if t.waker.queued.load(Ordering::SeqCst) {
+                return None;
+            }
+            t.fut.take().map(|f| (f, t.waker.clone()))
+        });
+        if let Some((mut fut, waker)) = got {
+            let w = Waker::from(waker);
+            let mut cx = Context::from_waker(&w);
+            match fut.as_mut().poll(&mut cx) {
+                Poll::Ready(()) => drop(fut),
+                Poll::Pending => EXEC.with(|e| e.borrow_mut().tasks[id].fut = Some(fut)),
+            }
+        }
+    }
+}
 fn exec_reset() {
     let old = EXEC.with(|e| std::mem::take(&mut *e.borrow_mut()));
     drop(old);
@@ -929,6 +955,7 @@ fn run_case(c: &Sexp, mask: u8) -> Sexp {
             .map(|nd| match nd.at(0).num() {
                 0 | 2 => nd.at(3).num(),
                 1 => nd.at(4).num(),
+                5 if nd.at(1).at(0).num() == 1 => nd.at(1).at(4).num(), // a memo template: its instances
                 _ => 0,
             })
             .collect();
@@ -1136,12 +1163,14 @@ fn run_case(c: &Sexp, mask: u8) -> Sexp {
                 }
             }
             3 => {
+                exec_spurious();
                 if exec_poll_nth(a as usize).is_none() {
                     ev(8, vec![-1]);
                 }
             }
             4 => {
                 let mut n = 0;
+                exec_spurious();
                 while exec_ready_len() > 0 {
                     if n == RUN_LIMIT {
                         ev(9, vec![]);
